@@ -27,7 +27,7 @@ def outerLaws (IL : MLaws I) (keysOf : Route → Option (List K))
       (r ∈ matchReq s q ↔ r ∈ L ∧ sat L r q = true))
     (nodup_match : ∀ s L q, LRepr IL keysOf s L → UIds L → (matchReq s q).Nodup)
     (mem_trace : ∀ s L q r, LRepr IL keysOf s L → UIds L →
-      (r ∈ routesOfList (trace s q) ↔ r ∈ matchReq s q)) :
+      (r ∈ rawRoutesOfList (trace s q) ↔ r ∈ matchReq s q)) :
     MLaws (outerOps I keysOf matchReq trace) where
   Repr := LRepr IL keysOf
   sat := sat
@@ -48,7 +48,7 @@ def outerLaws (IL : MLaws I) (keysOf : Route → Option (List K))
 /-- The routes listed by the traces of the accepted buckets. -/
 theorem mem_trace_buckets (IL : MLaws I) (keysOf : Route → Option (List K)) (accepts : K → Req → Bool)
     (s : LState I K) (L : List Route) (h : LRepr IL keysOf s L) (hU : UIds L) (q : Req) (r : Route) :
-    (∃ e ∈ s.map, accepts e.1 q = true ∧ r ∈ routesOfList (I.trace e.2 q)) ↔
+    (∃ e ∈ s.map, accepts e.1 q = true ∧ r ∈ rawRoutesOfList (I.trace e.2 q)) ↔
       r ∈ lMatchMap I accepts s.map q := by
   rw [mem_lMatchMap accepts s.map h.nodup]
   constructor
@@ -150,9 +150,9 @@ theorem traceGroup_spec (cs : List C) : ∀ memo (m : Bool), MemoSound eval memo
 
 theorem traceGroups_routes (q : Req) (kind : String) (m : List (List C × I.M)) (r : Route) :
     ∀ memo traces, MemoSound eval memo →
-      (r ∈ routesOfList (traceGroups I eval q kind m memo traces) ↔
-        r ∈ routesOfList traces ∨
-          ∃ e ∈ m, e.1.all eval = true ∧ r ∈ routesOfList (I.trace e.2 q)) := by
+      (r ∈ rawRoutesOfList (traceGroups I eval q kind m memo traces) ↔
+        r ∈ rawRoutesOfList traces ∨
+          ∃ e ∈ m, e.1.all eval = true ∧ r ∈ rawRoutesOfList (I.trace e.2 q)) := by
   induction m with
   | nil => intro memo traces _; simp [traceGroups]
   | cons a m ih =>
@@ -160,7 +160,7 @@ theorem traceGroups_routes (q : Req) (kind : String) (m : List (List C × I.M)) 
     intro memo traces h
     have sp := traceGroup_spec eval cs memo true h
     simp only [traceGroups]
-    rw [ih _ _ sp.2, sp.1, routesOfList_append, routesOfList_singleton, Trace.routes_mk]
+    rw [ih _ _ sp.2, sp.1, rawRoutesOfList_append, rawRoutesOfList_singleton, Trace.rawRoutes_mk]
     simp only [Bool.true_and, TInfo.routes, List.nil_append, List.mem_append, List.mem_cons,
       exists_eq_or_imp]
     cases hc : cs.all eval
